@@ -5,16 +5,24 @@ pub use crate::cmp;
 pub use crate::exec::*;
 pub use crate::rng::Rng;
 pub use crate::run::{CheckMeta, RunResult};
+pub use crate::simdb::SimDb;
 pub use crate::ssim::*;
 pub use crate::wgen;
 pub use crate::world::{Corpus, World};
 use serde_json::Value;
 use std::sync::OnceLock;
 
+pub mod c03;
+pub mod c09;
 pub mod c10;
 pub mod c11;
 pub mod c12;
+pub mod infer;
+pub mod c23;
+pub mod c27;
 pub mod refmon;
+pub mod pairs;
+pub mod order;
 
 /// indices of the W-corpus entries that lie inside the C01 fragment (decided by the fragment parser)
 pub fn fragment_entries() -> &'static Vec<usize> {
@@ -65,14 +73,26 @@ pub fn usable_goals(world: &World, kinds: &[&str]) -> Vec<usize> {
     }
 }
 
-pub const ALL: &[&str] = &["C01", "C02", "C05", "C06", "C10", "C11", "C12"];
+/// checks that do not drive the solvers (no solver probes in their evidence)
+pub const NO_SOLVER_PROBES: &[&str] = &["C14", "C15", "C27"];
+
+pub const ALL: &[&str] = &["C01", "C02", "C03", "C04", "C05", "C06", "C09", "C10", "C11", "C12", "C13", "C14", "C15", "C18", "C23", "C27", "C28"];
 
 pub fn meta(check: &str) -> CheckMeta {
     match check {
+        "C14" | "C15" => infer::meta(check),
+        "C27" => c27::meta(),
         "C01" => refmon::meta(refmon::Mode::C01),
         "C02" => refmon::meta(refmon::Mode::C02),
         "C05" => refmon::meta(refmon::Mode::C05),
         "C06" => refmon::meta(refmon::Mode::C06),
+        "C04" => pairs::meta(pairs::Mode::C04),
+        "C28" => pairs::meta(pairs::Mode::C28),
+        "C13" => order::meta(order::Mode::C13),
+        "C18" => order::meta(order::Mode::C18),
+        "C03" => c03::meta(),
+        "C09" => c09::meta(),
+        "C23" => c23::meta(),
         "C10" => c10::meta(),
         "C11" => c11::meta(),
         "C12" => c12::meta(),
@@ -82,10 +102,19 @@ pub fn meta(check: &str) -> CheckMeta {
 
 pub fn n_runs(check: &str, tier: &str) -> u64 {
     match check {
+        "C14" | "C15" => infer::n_runs(tier),
+        "C27" => c27::n_runs(tier),
         "C01" => refmon::n_runs(refmon::Mode::C01, tier),
         "C02" => refmon::n_runs(refmon::Mode::C02, tier),
         "C05" => refmon::n_runs(refmon::Mode::C05, tier),
         "C06" => refmon::n_runs(refmon::Mode::C06, tier),
+        "C04" => pairs::n_runs(pairs::Mode::C04, tier),
+        "C28" => pairs::n_runs(pairs::Mode::C28, tier),
+        "C13" => order::n_runs(order::Mode::C13, tier),
+        "C18" => order::n_runs(order::Mode::C18, tier),
+        "C03" => c03::n_runs(tier),
+        "C09" => c09::n_runs(tier),
+        "C23" => c23::n_runs(tier),
         "C10" => c10::n_runs(tier),
         "C11" => c11::n_runs(tier),
         "C12" => c12::n_runs(tier),
@@ -95,20 +124,33 @@ pub fn n_runs(check: &str, tier: &str) -> u64 {
 
 /// per-run wall-clock guard in seconds (harness safety net only)
 pub fn timeout_s(check: &str, tier: &str) -> u64 {
-    let _ = tier;
     match check {
-        "C09" => 30,
+        "C27" => 1500,
+        "C09" => if tier == "quick" { 10 } else { 30 },
         "C05" => 5,
         _ => 15,
     }
 }
 
 pub fn gen(check: &str, tier: &str, seed: u64, idx: u64, base: u64) -> Value {
+    if check == "C14" || check == "C15" {
+        return serde_json::to_value(infer::gen(check, seed)).unwrap();
+    }
+    if check == "C27" {
+        return c27::gen(tier, idx);
+    }
     let spec = match check {
         "C01" => refmon::gen(refmon::Mode::C01, tier, seed, idx, base),
         "C02" => refmon::gen(refmon::Mode::C02, tier, seed, idx, base),
         "C05" => refmon::gen(refmon::Mode::C05, tier, seed, idx, base),
         "C06" => refmon::gen(refmon::Mode::C06, tier, seed, idx, base),
+        "C04" => pairs::gen(pairs::Mode::C04, tier, seed, idx, base),
+        "C28" => pairs::gen(pairs::Mode::C28, tier, seed, idx, base),
+        "C13" => order::gen(order::Mode::C13, tier, seed, idx, base),
+        "C18" => order::gen(order::Mode::C18, tier, seed, idx, base),
+        "C03" => c03::gen(tier, seed, idx, base),
+        "C09" => c09::gen(tier, seed, idx, base),
+        "C23" => c23::gen(tier, seed, idx, base),
         "C10" => c10::gen(tier, seed, idx, base),
         "C11" => c11::gen(tier, seed, idx, base),
         "C12" => c12::gen(tier, seed, idx, base),
@@ -119,6 +161,18 @@ pub fn gen(check: &str, tier: &str, seed: u64, idx: u64, base: u64) -> Value {
 
 pub fn timeouts_are_violations(check: &str) -> bool {
     check == "C09"
+}
+
+/// signature of a run that did not terminate, computed from its (re-generated) spec
+pub fn timeout_sig(check: &str, spec: &Value) -> Option<String> {
+    if check != "C09" {
+        return None;
+    }
+    let s: Spec = serde_json::from_value(spec.clone()).ok()?;
+    if s.ops.is_empty() {
+        return None;
+    }
+    Some(c09::static_sig(&s, "did-not-terminate"))
 }
 
 /// corpus triage pseudo-check: how does one (entry, goal, solver kind) behave in isolation?
@@ -161,6 +215,12 @@ pub fn exec(check: &str, spec: &Value, r: &mut RunResult) {
     if check == "TRIAGE" {
         return exec_triage(spec, r);
     }
+    if check == "C14" || check == "C15" {
+        return infer::exec(check, spec, r);
+    }
+    if check == "C27" {
+        return c27::exec(spec, r);
+    }
     let spec: Spec = match serde_json::from_value(spec.clone()) {
         Ok(s) => s,
         Err(e) => {
@@ -173,6 +233,13 @@ pub fn exec(check: &str, spec: &Value, r: &mut RunResult) {
         "C02" => refmon::exec(refmon::Mode::C02, &spec, r),
         "C05" => refmon::exec(refmon::Mode::C05, &spec, r),
         "C06" => refmon::exec(refmon::Mode::C06, &spec, r),
+        "C04" => pairs::exec(pairs::Mode::C04, &spec, r),
+        "C28" => pairs::exec(pairs::Mode::C28, &spec, r),
+        "C13" => order::exec(order::Mode::C13, &spec, r),
+        "C18" => order::exec(order::Mode::C18, &spec, r),
+        "C03" => c03::exec(&spec, r),
+        "C09" => c09::exec(&spec, r),
+        "C23" => c23::exec(&spec, r),
         "C10" => c10::exec(&spec, r),
         "C11" => c11::exec(&spec, r),
         "C12" => c12::exec(&spec, r),
@@ -182,7 +249,12 @@ pub fn exec(check: &str, spec: &Value, r: &mut RunResult) {
 
 /// Candidate simplifications of a failing spec, most aggressive first (generic over solver-sim specs).
 pub fn shrink_candidates(check: &str, spec: &Value) -> Vec<Value> {
-    let _ = check;
+    if check == "C14" || check == "C15" {
+        return infer::shrink_candidates(spec);
+    }
+    if check == "C27" {
+        return vec![];
+    }
     let s: Spec = match serde_json::from_value(spec.clone()) {
         Ok(s) => s,
         Err(_) => return vec![],
